@@ -620,6 +620,9 @@ def mesh_clause(vals, cls):
     ok = len(xf) == n + 1 and len(xc) == n and bool(np.all(np.diff(xf) > 0)) and close(xf[0], first) and close(xf[-1], last)
     ok = ok and close(xc, (xf[:-1] + xf[1:]) / 2) and close(m.vol(), np.diff(xf)) and close(np.sum(m.vol()), xf[-1] - xf[0])
     ok = ok and close(m.average(np.full(n, 3.25)), 3.25)
+    if hasattr(m, "dx") and not close(m.dx(), np.diff(xf)):
+        show(cls=cls, dx=np.asarray(m.dx(), float).tolist()[:6], face_spacing=np.diff(xf).tolist()[:6])
+        ok = False
     if cls == "refinedmesh":
         k = n * a / (a + b)
         if abs(k - round(k)) < 1e-12:
